@@ -40,7 +40,7 @@ TIERS = {"quick": {"runs": 60000, "wall": 55}, "thorough": {"runs": 3000000, "wa
 
 LENS = [0, 1, 2, 254, 255, 256, 257, 509, 510, 511, 765, 766,
         253, 506, 759]  # the last three make a single-item list exactly 255 / 510 / 765 bytes long on the wire (the BleRequest value field)
-HARMLESS = ("frag_empty_last", "frag_empty_middle")  # legal peer behaviour, not damage: the reply must still be accepted
+HARMLESS = ("frag_empty_last", "frag_empty_middle", "ff_data_after_separator")  # legal peer behaviour, not damage: the reply must still be accepted
 PAIRING_TYPES = [0, 1, 2, 3, 4, 5, 6, 7, 8, 9, 10, 11, 14, 19]
 
 
@@ -64,7 +64,7 @@ def gen_items(r: random.Random, avoid=()) -> list:
 def gen_plan(seed: int, tier: str) -> dict:
     r = random.Random(seed)
     mode = r.choice(["ble"] * 6 + ["ip"] * 3 + ["coap"] * 2)
-    fault = r.choice([None] * 4 + ["truncate", "truncate", "corrupt", "lone_type", "frag_drop", "frag_dup", "frag_endless", "frag_empty_last", "frag_empty_middle"])
+    fault = r.choice([None] * 4 + ["truncate", "truncate", "corrupt", "lone_type", "frag_drop", "frag_dup", "frag_endless", "frag_empty_last", "frag_empty_middle", "ff_data_after_separator"])
     if mode != "ble" and fault and fault.startswith("frag_"):
         fault = "truncate"
     plan = {"mode": mode, "req": gen_items(r), "reply": gen_items(r, avoid=(0x0C, 0x0D) if mode == "ble" else ()), "fault": fault, "pos": r.random(), "bit": r.randrange(8), "idx": r.randrange(8),
@@ -72,6 +72,7 @@ def gen_plan(seed: int, tier: str) -> dict:
             "expected": r.choice([None, None, "all", "some"])}
     if mode == "coap":
         plan["req"] = []
+    plan["second"] = r.random() < 0.3
     if fault in ("frag_empty_last", "frag_empty_middle") and not plan["tlv_frag"]:
         plan["tlv_frag"] = r.choice([16, 64, 200])
     return plan
@@ -128,6 +129,9 @@ def faulted(rb: bytes, plan) -> bytes:
         return bytes(b)
     if f == "lone_type":
         return rb + b"\x06"
+    if f == "ff_data_after_separator":
+        # legal TLV8 that no encoder of this library produces: a separator directly followed by a type-0xFF item with data
+        return rb + b"\xff\x00\xff\x01A"
     return rb
 
 
@@ -250,12 +254,28 @@ def execute_ble(plan, ch):
         acc.tlv_frag_fault = {"kind": plan["fault"][5:], "idx": plan["idx"]}
     out = {"res": None, "exc": None}
 
+    second = {"res": None, "exc": None, "sent": None}
+
     async def main():
         client = LinkClient(ctx, acc, plan["fsize"])
         try:
             out["res"] = await _pairing_char_write(client, client.handle_for(34), 34, lib_items(req))
         except Exception as e:  # noqa: BLE001
             out["exc"] = e
+        out["pieces"] = getattr(acc, "tlv_pieces_sent", None)
+        out["errors"] = list(acc.protocol_errors)
+        if plan.get("second") and client.is_connected:
+            # a second, undamaged exchange on the same link: decoding is a function of the bytes alone, whatever came before
+            reply2 = [(6, b"\x02"), (3, b"k" * 300), (255, b""), (3, b"q"), (255, b""), (3, b"z" * 2)]
+            second["sent"] = reply2
+            rb2 = tlv8.encode(reply2)
+            acc.pairing_echo = lambda items, raw: rb2
+            acc.tlv_frag_fault = None
+            acc.pending_tlv_frags = []
+            try:
+                second["res"] = await _pairing_char_write(client, client.handle_for(34), 34, lib_items([(6, b"\x01")]))
+            except Exception as e:  # noqa: BLE001
+                second["exc"] = e
 
     try:
         loop.run_sim(main())
@@ -265,10 +285,10 @@ def execute_ble(plan, ch):
         seams.end()
     ctx.event("ble", type(out["exc"]).__name__ if out["exc"] else "ok", seen["n"], len(rb))
     judge_request(ctx, plan, req, seen["raw"])
-    if acc.protocol_errors:
+    if out.get("errors"):
         # the BleRequest struct that carries the list (09 01 01 | 01 <list>) as the strict reference decoder saw it
-        ctx.violate("request-not-canonical", "ble-request-struct", f"request list of {len(seen['raw'] or b'')} bytes: reference accessory: {acc.protocol_errors[:2]}")
-    pieces = getattr(acc, "tlv_pieces_sent", None)
+        ctx.violate("request-not-canonical", "ble-request-struct", f"request list of {len(seen['raw'] or b'')} bytes: reference accessory: {out['errors'][:2]}")
+    pieces = out.get("pieces")
     fragmented = bool(pieces and len(pieces) > 1)
     delivered = b"".join(pieces) if fragmented else rb
     if fragmented and len(pieces) > 50 and plan["fault"] != "frag_endless":
@@ -285,6 +305,14 @@ def execute_ble(plan, ch):
     elif fragmented or not (plan["fault"] or "").startswith("frag_"):
         if fragmented or not (set(t for t, _ in tlv8.decode(rb, strict=False)) & {0x0C, 0x0D} if _decodes(rb) else False):
             judge_reply(ctx, plan, delivered, out["res"], out["exc"], as_dict=True)
+    if second["sent"] is not None:
+        ctx.obligations += 1
+        ctx.probe("c15_second_exchange")
+        want2 = {3: b"z" * 2, 6: b"\x02", 255: b""}  # dict(list) keeps the last of equal keys
+        if second["exc"] is not None:
+            ctx.violate("reply-rejected", f"second-exchange/{type(second['exc']).__name__}", f"an undamaged reply after a first exchange ({plan['fault']}) raised {second['exc']!r}")
+        elif {int(k): bytes(v) for k, v in second["res"].items()} != want2:
+            ctx.violate("reply-differs", "second-exchange", f"after a first exchange ({plan['fault']}) an undamaged reply decoded to {summ(second['res'])}, peer sent {[(t, len(v)) for t, v in second['sent']]}")
     ctx.state("ble", plan["fault"], fragmented, min(len(rb) // 256, 4), out["exc"] is None)
     ctx.probe("c15_fragmented_reply" if fragmented else "c15_single_reply")
     sample = {"mode": "ble", "req": plan["req"], "reply": plan["reply"], "fault": plan["fault"], "tlv_frag": plan["tlv_frag"], "fsize": plan["fsize"], "outcome": type(out["exc"]).__name__ if out["exc"] else "ok"}
